@@ -253,6 +253,9 @@ pub fn cmd_lcd(req: &Value) -> Value {
                 out.push(json!({"v": lcd.read(a as u32), "handles": lcd.handles(a as u32)}));
             } else if let Some(d) = op.get("obs") {
                 out.push(lcd_obs(&lcd, d.as_bool().unwrap_or(false)));
+            } else if op.get("reset").is_some() {
+                lcd.reset();
+                out.push(json!({}));
             } else if op.get("snap").is_some() {
                 let (meta, vram) = lcd.export_snapshot();
                 let mut fresh = LcdController::new();
